@@ -6,7 +6,7 @@
    Constants named etag_*, check_*, key_*, keyname_*, *_max_links are the ones
    goextract read from the Go sources on this run. *)
 From Apko Require Import Base.Prelude Base.C18Path Generated.C18 Spec.ConfineSpec Model.Confine
-  Proofs.ConfineProofs.
+  Proofs.ConfineProofs Proofs.ConfineCache.
 Open Scope list_scope.
 
 (* the shape of every prefix test in the source: which side is filepath.Clean'ed
@@ -219,3 +219,142 @@ Theorem c18_validator_decides : forall roots touched,
   escapes roots touched = [] <-> Confined roots touched.
 Proof. exact escapes_nil_iff. Qed.
 Print Assumptions c18_validator_decides.
+
+(* ---- cachedPackage: the cache member named by .PKGINFO's datahash ------------------
+
+   cachedPackage joins the datahash TEXT of the cached control section into
+   <cacheDir>/<datahash><cached_dat_suffix> unsanitised.  [cached_package_touches]
+   lists, in source order, what it then does with that path ([true] = something is
+   created or replaced there); [cached_hex_before_data] is read from the source:
+   hex.DecodeString(datahash) stands between os.Stat(dat) and exp.PackageData(). *)
+
+(* Whatever the datahash text is, everything cachedPackage creates or replaces —
+   the temporary file's directory filepath.Dir(TarFile) and TarFile itself — lies
+   in the package's cache directory; for a datahash that decodes the member is
+   one proper component below it. *)
+Theorem c18_cache_member : forall cacheDir datahash dat_exists, is_abs cacheDir = true ->
+  cached_hex_before_data = true /\
+  (forall p, In (true, p) (cached_package_touches cacheDir datahash dat_exists) -> under cacheDir p) /\
+  (hex_ok datahash = true ->
+     cc (cache_member_path cacheDir datahash) = cc cacheDir ++ [datahash ++ la cached_dat_suffix] /\
+     cc (cache_member_tar cacheDir datahash) = cc cacheDir ++ [datahash ++ tar_suffix]) /\
+  (hex_ok datahash = false ->
+     cached_package_touches cacheDir datahash dat_exists = [(false, cache_member_path cacheDir datahash)]).
+Proof.
+  intros b h de HB. split; [reflexivity|]. split.
+  - intros p I. exact (cache_member_confined b h de p HB I).
+  - split.
+    + intro HX. destruct (member_in_dir b h HB (hex_ok_chars h HX)) as [A [_ C]]. split; assumption.
+    + apply cache_member_nonhex_stat_only.
+Qed.
+Print Assumptions c18_cache_member.
+
+Example c18_cache_member_ex :
+  cached_package_touches (la "/t/cache/r/x86_64/p-1") (la "00ff") true =
+    [(false, la "/t/cache/r/x86_64/p-1/00ff.dat.tar.gz"); (false, la "/t/cache/r/x86_64/p-1/00ff.dat.tar");
+     (false, la "/t/cache/r/x86_64/p-1/00ff.dat.tar.gz"); (true, la "/t/cache/r/x86_64/p-1");
+     (true, la "/t/cache/r/x86_64/p-1/00ff.dat.tar")].
+Proof. vm_compute. reflexivity. Qed.
+
+(* "every path cachedPackage looks at is in the cache directory" is FALSE: a
+   datahash that does not decode is still joined and os.Stat'ed — a read of
+   whether <anywhere>/<x>.dat.tar.gz exists, nothing more. *)
+Theorem c18_cache_member_stat_refuted : exists cacheDir datahash,
+  is_abs cacheDir = true /\ hex_ok datahash = false /\
+  ~ under cacheDir (cache_member_path cacheDir datahash) /\
+  cache_member_path cacheDir datahash = la "/t/outside/x.dat.tar.gz".
+Proof. exact cache_member_stat_outside. Qed.
+Print Assumptions c18_cache_member_stat_refuted.
+
+(* Is a datahash that does not decode reachable at all?  Not through apko's own
+   cache writes: a control section is moved into the cache only after
+   verifyExpanded (fix 6d335fb) accepted it, and then its single datahash value
+   is empty or the data section's own hex sha256. (A cache directory populated
+   by other means is what the refutation above is about.) *)
+Theorem c18_cache_member_datahash_reachable : forall values got d,
+  hex_ok got = true -> verify_datahash_accepts values got = true -> values = [d] -> hex_ok d = true.
+Proof. exact verified_datahash_decodes. Qed.
+Print Assumptions c18_cache_member_datahash_reachable.
+
+Example c18_cache_member_datahash_reachable_ex :
+  verify_datahash_accepts [la "00ff"] (la "00ff") = true /\ verify_datahash_accepts [[]] (la "00ff") = true /\
+  verify_datahash_accepts [la "../../x"] (la "00ff") = false.
+Proof. repeat split; vm_compute; reflexivity. Qed.
+
+(* ---- the directory-backed filesystem, operationally -----------------------------------
+
+   From here on the names [op], [st], [dirfs_step], [host_call] ... are those of the
+   operational model of dirFS written for C17 (Model/DirFS.v: overlay + host, which
+   side is asked in which order), imported read-only. *)
+From Apko Require Import Model.MemFS Spec.FsSpec Model.DirFS Proofs.ConfineDirFS.
+
+(* Which dirFS methods have the host execute their call BEFORE the in-memory tree
+   can refuse the name — the root of finding C18-F1.
+   (1) the order of the two calls in each method, as goextract reads it from rwosfs.go;
+   (2) for a host-first method the host state after the step is the host call's,
+       whatever the overlay holds or answers;
+   (3) for a tree-first method (Create, OpenFile with O_CREATE, Remove) a refusal by
+       the overlay leaves the host untouched and is what the caller sees;
+   (4) every other method leaves the host's tree alone or passes a read / an
+       operation on an open file through;
+   (5) witness: from the initial state WriteFile("../escaped.txt") is answered
+       "does not exist" by the overlay after the host has written. *)
+Theorem c18_dirfs_host_touched_before_check :
+  dirfs_host_first =
+    [("WriteFile", true); ("MkdirAll", true); ("Mkdir", true); ("Symlink", true); ("Link", true);
+     ("Chmod", true); ("Chown", true); ("Chtimes", true); ("Mknod", true);
+     ("Create", false); ("OpenFile", false); ("Remove", false)]%string /\
+  (forall d o, host_first o = true -> d_host (fst (dirfs_step d o)) = host_after (d_host d) o) /\
+  (forall d o, tree_first o = true -> is_failure (snd (ov_step (d_ov d) o)) = true ->
+     d_host (fst (dirfs_step d o)) = d_host d /\ snd (dirfs_step d o) = snd (ov_step (d_ov d) o)) /\
+  (forall d o, host_first o = false -> tree_first o = false -> passes_through o = false ->
+     d_host (fst (dirfs_step d o)) = d_host d) /\
+  (host_first w_escape = true /\ climbs [".."; "escaped.txt"]%string = true /\
+   snd (dirfs_step dinit w_escape) = OErr ENotExist /\
+   d_host (fst (dirfs_step dinit w_escape)) <> d_host dinit).
+Proof.
+  split; [reflexivity|].
+  exact (conj host_first_step (conj tree_first_refused (conj other_ops_keep_host host_touched_witness))).
+Qed.
+Print Assumptions c18_dirfs_host_touched_before_check.
+
+(* the same name through a tree-first method never reaches the host — unless an
+   earlier MkdirAll entered a child literally named ".." into the overlay *)
+Example c18_dirfs_tree_first_ex :
+  (snd (dirfs_step dinit (Create [".."; "escaped.txt"]%string)) = OErr ENotExist /\
+   d_host (fst (dirfs_step dinit (Create [".."; "escaped.txt"]%string))) = d_host dinit) /\
+  (let d1 := fst (dirfs_step dinit (MkdirAll [".."; "d"]%string 493%N)) in
+   snd (dirfs_step d1 (Create [".."; "d"; "f"]%string)) = OOk /\
+   d_host (fst (dirfs_step d1 (Create [".."; "d"; "f"]%string))) <> d_host d1).
+Proof.
+  split; [destruct tree_first_witness as [_ [A B]]; split; assumption | exact tree_first_enabled_witness].
+Qed.
+
+(* The positive complement, over the operational model: a step changes the host only
+   through one host call on the operation's own names (handed over as filepath.Join
+   cleans them, [hp]); if none of the names has a ".." component, that call's names do
+   not climb ([climbs] = false: C17's reading) and the host paths
+   filepath.Join(base, name) are under the base (C18's lexical reading).
+   Partial: names WITH a ".." component that still end up inside (a/../b) are not
+   covered here; c18_clean_join_under characterises them lexically. *)
+Theorem c18_dirfs_confined_operational_partial : forall b d o, is_abs b = true ->
+  Forall wfpath (op_names o) -> Forall (fun p => ~ In ".."%string p) (op_names o) ->
+  d_host (fst (dirfs_step d o)) = d_host d \/
+  exists c, d_host (fst (dirfs_step d o)) = fst (host_step (d_host d) (host_op c)) /\
+            op_names (host_op c) = map hp (op_names c) /\
+            Forall (fun p => climbs p = false /\ under b (dirfs_host_path b (pstr p))) (op_names c).
+Proof. exact dirfs_confined_operational. Qed.
+Print Assumptions c18_dirfs_confined_operational_partial.
+
+Example c18_dirfs_confined_operational_ex :
+  wfpath ["etc"; "apk"; "world"]%string /\ ~ In ".."%string ["etc"; "apk"; "world"]%string /\
+  hp ["etc"; "."; "apk"; ""; "world"]%string = ["etc"; "apk"; "world"]%string /\
+  d_host (fst (dirfs_step dinit (MkdirAll ["etc"; "apk"]%string 493%N))) <> d_host dinit.
+Proof. exact dirfs_confined_operational_ex. Qed.
+
+(* the two models agree on what filepath.Join(base, name) leaves of a name: C17's
+   element loop computes C18's leading-".." count and remaining components *)
+Theorem c18_dirfs_models_agree : forall p, wfpath p ->
+  map la (clean_loop false [] p) = repeat dd (ups (pstr p)) ++ downs (pstr p).
+Proof. exact models_agree. Qed.
+Print Assumptions c18_dirfs_models_agree.
